@@ -243,6 +243,22 @@ func c05Gen(rng *rand.Rand, tier string) []core.Spec {
 			}
 		}
 	}
+	// a transport failure inside a message, further Reads on the failed reader, then NextReader up to
+	// and past the documented threshold: only failed NextReader calls count towards the 1000
+	for _, server := range []bool{false, true} {
+		for _, extra := range []int{1, 2, 7} {
+			for fault := 0; fault < 3; fault++ {
+				k := genKey(rng)
+				stream, _ := encodeAll([]Frame{{Fin: true, Op: 1, Masked: server, Key: k, Payload: genPayload(rng, 50, k)}})
+				ops := []ROp{{K: 0}, {K: 1, M: 100}, {K: 1, M: 100}}
+				for i := 0; i < extra; i++ {
+					ops = append(ops, ROp{K: 1, M: core.Pick(rng, []int{1, 100, 0})})
+				}
+				ops = append(ops, make([]ROp, 1001)...)
+				out = append(out, &ReaderSpec{Prop: 5, Server: server, RBuf: 4096, Chunks: []B{B(stream[:20])}, Fault: fault, Cmp: true, Ops: ops, Note: "reads-after-failure-then-1000-next"})
+			}
+		}
+	}
 	// a frame larger than the application's buffer, which is at least as large as the read buffer
 	// (reads go straight to the transport), cut exactly where a read fills the buffer, the fault
 	// delivered with those bytes
